@@ -83,7 +83,7 @@ func zeroMappingOnPaths(prog *Program, newParser *ssa.Function, budgetField stri
 		}
 		return ctorPart(prog, newParser, c)
 	}
-	nZero, nOther := 0, 0
+	nZero, nOther, nNone := 0, 0, 0
 	why := ""
 	for _, sm := range ps.Run(newParser) {
 		if sm.Ret == nil {
@@ -97,7 +97,9 @@ func zeroMappingOnPaths(prog *Program, newParser *ssa.Function, budgetField stri
 			}
 		}
 		if last < 0 {
-			return "a path of newParser returns a parser without applying the options"
+			// no option was applied on this path (an empty option list): it says nothing about the order
+			nNone++
+			continue
 		}
 		var stores []*Event
 		for i := last + 1; i < len(evs); i++ {
@@ -155,4 +157,26 @@ func zeroMappingOnPaths(prog *Program, newParser *ssa.Function, budgetField stri
 		why = "newParser has no path for a zero budget or none for another budget"
 	}
 	return why
+}
+
+// loopBlocksContaining: the blocks of some natural loop of b's function that contains b (empty when b is in no loop).
+func loopBlocksContaining(b *ssa.BasicBlock) map[*ssa.BasicBlock]bool {
+	for _, h := range b.Parent().Blocks {
+		if !h.Dominates(b) {
+			continue
+		}
+		back := false
+		for _, p := range h.Preds {
+			if h.Dominates(p) {
+				back = true
+			}
+		}
+		if !back {
+			continue
+		}
+		if lb := loopBlocks(h); lb[b] {
+			return lb
+		}
+	}
+	return nil
 }
